@@ -1,6 +1,7 @@
 package c01
 
 import (
+	"encoding/json"
 	"testing"
 
 	"verif/harness/pbt"
@@ -22,7 +23,9 @@ func dispatch() pbt.Dispatch {
 	return pbt.Dispatch{}.Add(fedPart.Name, fedPart.Handler()).WithProbes(probes())
 }
 
-func probes() pbt.Probes { return pbt.Probes{} }
+func probes() pbt.Probes {
+	return pbt.KnownCaseProbes("known", func(part string, raw json.RawMessage) pbt.Verdict { return fedPart.CheckRaw(raw) })
+}
 
 func TestMinimize(t *testing.T) {
 	pbt.StdMinimize(t, "C01", pbt.Minimizers{fedPart.Name: minimizeFed})
